@@ -297,6 +297,56 @@ func (u *c07Univ) pattern(kind string, msgOf, altOf func(i int) []byte) ([]c07Pa
 			ps = append(ps, c07Part{i, i, msgOf(i)})
 		}
 	}
+	if strings.HasPrefix(kind, "jp:") {
+		// "jp:<g>:<layout>:<total>:<junk>": <total> entries labelled with the distinct members 1..total, g of them
+		// genuine; the others are junk ("g" random bytes, "o" the member's genuine signature of another message)
+		// placed first / last / inter(leaved) / at:<p> (one junk entry at position p, g = total-1)
+		f := strings.Split(kind, ":")
+		if len(f) != 5 {
+			return nil, false
+		}
+		g, total, pos := 0, 0, -1
+		_, e1 := fmt.Sscanf(f[1], "%d", &g)
+		_, e2 := fmt.Sscanf(f[3], "%d", &total)
+		if e1 != nil || e2 != nil || g < 0 || g > total || total > len(u.bases) {
+			return nil, false
+		}
+		junk := make([]bool, total)
+		j := total - g
+		switch {
+		case f[2] == "first":
+			for i := 0; i < j; i++ {
+				junk[i] = true
+			}
+		case f[2] == "last":
+			for i := g; i < total; i++ {
+				junk[i] = true
+			}
+		case f[2] == "inter":
+			for t := 0; t < j; t++ {
+				junk[(2*t+1)*total/(2*j)] = true
+			}
+		case strings.HasPrefix(f[2], "at"):
+			if _, err := fmt.Sscanf(f[2], "at%d", &pos); err != nil || pos < 0 || pos >= total {
+				return nil, false
+			}
+			junk[pos] = true
+		default:
+			return nil, false
+		}
+		for i := 0; i < total; i++ {
+			id := i + 1
+			switch {
+			case !junk[i]:
+				ps = append(ps, c07Part{id, id, msgOf(id)})
+			case f[4] == "o":
+				ps = append(ps, c07Part{id, id, altOf(id)})
+			default:
+				ps = append(ps, c07Part{id, 0, nil})
+			}
+		}
+		return ps, true
+	}
 	if strings.HasPrefix(kind, "k=") { // exactly k distinct genuine signers 1..k
 		k := 0
 		if _, err := fmt.Sscanf(kind, "k=%d", &k); err != nil || k < 0 || k > len(u.bases) {
@@ -1322,6 +1372,8 @@ func (w *c07World) culprit() string {
 		switch {
 		case strings.Contains(k, "relabel") || strings.Contains(k, "genesis"):
 			set["stated-view-not-checked"] = true
+		case strings.Contains(k, "jp:"):
+			set["junk-signature-entries-counted"] = true
 		case strings.Contains(k, "dup"), strings.Contains(k, "mixrep"), strings.Contains(k, "ownrep"):
 			set["repeated-signer-counted"] = true
 		case strings.HasSuffix(k, ".valid"), strings.HasSuffix(k, ".validAll"), strings.HasSuffix(k, ".validHi"),
@@ -2306,6 +2358,79 @@ func (r *c07Runner) boundaryAgg() {
 	r.o.v.Count("boundaryAgg:" + r.u.scheme)
 }
 
+// boundaryJunk: sub-quorum certificates whose junk entries sit at every kind of position.  A QC, TC or AggQC
+// signature with q (or n) entries of distinct configured members, g of them genuine and the rest junk (random
+// bytes, or the member's genuine signature of another message): junk block first / last / interleaved, and one
+// junk entry at each position; g in {q-1, 4, 8 (where < q), 1}.  None of them contains a quorum of genuine
+// signatures, so none may move the replica, whatever order or chunking the verification uses.
+func (r *c07Runner) boundaryJunk() {
+	q, n := hotstuff.QuorumSize(r.u.nFull), r.u.nFull
+	var kinds []string
+	seen := map[string]bool{}
+	add := func(k string) {
+		if !seen[k] {
+			seen[k] = true
+			kinds = append(kinds, k)
+		}
+	}
+	for _, g := range []int{q - 1, 4, 8, 1} {
+		if g < 1 || g >= q {
+			continue
+		}
+		for _, total := range []int{q, n} {
+			for _, layout := range []string{"first", "last", "inter"} {
+				add(fmt.Sprintf("jp:%d:%s:%d:g", g, layout, total))
+				if layout != "inter" || g == q-1 {
+					add(fmt.Sprintf("jp:%d:%s:%d:o", g, layout, total))
+				}
+			}
+		}
+	}
+	for _, total := range []int{q, n} {
+		for p := 0; p < total; p++ {
+			jk := "g"
+			if p%2 == 1 {
+				jk = "o"
+			}
+			add(fmt.Sprintf("jp:%d:at%d:%d:%s", total-1, p, total, jk)) // total = n: n-1 >= q genuine is legitimate
+		}
+	}
+	gqc := &c07QCSpec{Kind: "valid", Block: "G"}
+	w := r.freshO(nil, c07Opt{})
+	cnt := 0
+	for i, k := range kinds {
+		var sis []c07SISpec
+		sis = append(sis, c07SISpec{TC: &c07TCSpec{Kind: k, View: 1}})
+		if r.agg {
+			sis = append(sis, c07SISpec{Agg: &c07AggSpec{Kind: k, View: 1}}, c07SISpec{Agg: &c07AggSpec{Kind: "valid", View: 1, High: &c07QCSpec{Kind: k, Block: "b1"}}})
+		} else {
+			sis = append(sis, c07SISpec{QC: &c07QCSpec{Kind: k, Block: "b1"}}, c07SISpec{QC: &c07QCSpec{Kind: k, Block: "b2"}, TC: &c07TCSpec{Kind: "valid", View: 0}})
+		}
+		for j, si := range sis {
+			si := si
+			st := c07Stim{Op: "newview", SI: &si}
+			switch (i + j) % 5 {
+			case 1:
+				st.Op = "adv"
+			case 3:
+				if si.QC == nil {
+					si.QC = gqc
+				}
+				st = c07Stim{Op: "timeout", View: 1, From: 2, Sig: "ok", SI: &si}
+			}
+			before := w.obs()
+			w.held = map[c07Contrib]bool{}
+			w.hist = nil
+			after := w.do(r.o, st)
+			cnt++
+			if after != before {
+				w = r.freshO(nil, c07Opt{})
+			}
+		}
+	}
+	r.o.v.CountN("junk-position:"+r.u.scheme+fmt.Sprintf("/n%d", n), cnt)
+}
+
 func (r *c07Runner) leaderOf(opt c07Opt, v uint64) hotstuff.ID {
 	if opt.rot == "rr" {
 		return leaderrotation.ChooseRoundRobin(hotstuff.View(v), r.u.nFull)
@@ -2382,9 +2507,41 @@ func TestVerifC07(t *testing.T) {
 			}
 			r.boundaryBLS(search)
 			r.boundaryAgg()
+			r.boundaryJunk()
 			r.blsPop = true
 			r.random(c07Size(v, search, 6, 120))
 		}()
+	}
+	// every scheme at a membership whose quorum is above 4 and not a multiple of 4 or 8 (n=7, q=5; thorough also
+	// n=10, q=7): the sub-quorum families only (eddsa n=7 has a full runner below)
+	light := []cfg{{crypto.NameECDSA, 7}, {crypto.NameBLS12, 7}}
+	if v.Thorough() && !search {
+		light = append(light, cfg{crypto.NameECDSA, 10}, cfg{crypto.NameEDDSA, 10}, cfg{crypto.NameBLS12, 10}, cfg{crypto.NameEDDSA, 13})
+	}
+	for _, c := range light {
+		if v.Thorough() && !search && c.scheme == crypto.NameECDSA && c.n == 7 {
+			continue // has a full runner in the thorough tier
+		}
+		for _, agg := range []bool{false, true} {
+			idx++
+			r := &c07Runner{o: o, u: c07NewUniv(c.scheme, c.n), agg: agg, leader: 2,
+				rng: &c07Rand{uint64(v.seed)*0x9E3779B97F4A7C15 + uint64(idx)*0xD1B54A32D192ED03 + 1}}
+			wg.Add(1)
+			go func() {
+				defer wg.Done()
+				defer func() {
+					if p := recover(); p != nil {
+						v.Oracle(false, "harness-panic", fmt.Sprint(p), r.u.scheme)
+					}
+				}()
+				if err := c07Sanity(r.u, agg); err != nil {
+					t.Errorf("C07 harness sanity: %v", err)
+					return
+				}
+				r.boundaryJunk()
+				r.boundaryAgg()
+			}()
+		}
 	}
 	for _, c := range cfgs {
 		for _, agg := range []bool{false, true} {
@@ -2409,6 +2566,7 @@ func TestVerifC07(t *testing.T) {
 					r.boundary3()
 					if leader == 2 {
 						r.boundaryAgg()
+						r.boundaryJunk()
 					}
 					if leader == 2 {
 						r.exhaustive(v.Thorough() && !search)
